@@ -520,7 +520,7 @@ PROPS["C02"] = {
             "the 13 entry bytes of targets with a live mocker and the bodies of used origin placeholders; unmocked targets have pristine entry bytes and "
             "run their original body, unambiguously mocked targets show the entry jump and behave by their latest mock; where two owners shared a "
             "target and one restored, only the byte invariant and 'pristine bytes <=> original behaviour' are asserted. After all builders are reset "
-            "the image is pristine outside placeholder bodies. A second unit puts a refused apply (origin placeholder on a zoo prologue goom cannot relocate) "
+            "the image is pristine outside placeholder bodies. method-histories / method-values: the same byte invariant over histories on the methods of one struct (three ways of addressing) and on bound method values handed to Func (names that end in f / m next to their shorter siblings). A further unit puts a refused apply (origin placeholder on a zoo prologue goom cannot relocate) "
             "into histories of apply/stub/reset/cancel by two builders: a refusal after everything was reset must leave pristine entry bytes. After half of the Resets the builder and the handles obtained from it stay in use. Non-trivial: a restore after a re-apply or with a second owner; distinct by window and op sequence.",
     "assumptions": ["calls that reach an origin placeholder run with stack headroom and GC paused (open finding C03/origin-morestack-reentry is excluded by construction)"],
     "floors": [("histories", "history/restore-after-reapply-or-second-owner", 100), ("histories", "history/two-owners-on-one-target", 50),
